@@ -238,17 +238,26 @@ func (cons *VesaFbConsole) Scroll(dir ScrollDir, lines uint32) {
 
 	offset := cons.fbOffset(0, lines*cons.font.GlyphHeight-cons.offsetY)
 
+	// Copy row by row and only the bytes that hold pixels; the padding
+	// bytes between rows (pitch > width * bytesPerPixel) are not touched.
+	rowBytes := cons.width * cons.bytesPerPixel
+
 	switch dir {
 	case ScrollDirUp:
 		startOffset := cons.fbOffset(0, 0)
 		endOffset := cons.fbOffset(0, cons.height-lines*cons.font.GlyphHeight-cons.offsetY)
-		for i := startOffset; i < endOffset; i++ {
-			cons.fb[i] = cons.fb[i+offset]
+		for rowOffset := startOffset; rowOffset < endOffset; rowOffset += cons.pitch {
+			for i := rowOffset; i < rowOffset+rowBytes; i++ {
+				cons.fb[i] = cons.fb[i+offset]
+			}
 		}
 	case ScrollDirDown:
 		startOffset := cons.fbOffset(0, lines*cons.font.GlyphHeight)
-		for i := uint32(len(cons.fb) - 1); i >= startOffset; i-- {
-			cons.fb[i] = cons.fb[i-offset]
+		endOffset := cons.fbOffset(0, cons.height-cons.offsetY)
+		for rowOffset := endOffset; rowOffset > startOffset; rowOffset -= cons.pitch {
+			for i := rowOffset - cons.pitch; i < rowOffset-cons.pitch+rowBytes; i++ {
+				cons.fb[i] = cons.fb[i-offset]
+			}
 		}
 	}
 }
